@@ -726,6 +726,12 @@ pub fn debug_dump(input: &Input) {
     }
     let rb = dwarf::read_back(&e).unwrap();
     println!("{:?}", rb);
+    {
+        let mut iso = crate::iso::Iso::new(&da, &db);
+        iso.strip_markers = true;
+        let r = iso.run_full();
+        println!("insert-mode iso {:?} funcs {:?} ambiguous {:?}", r.map_err(|e| e.signature), iso.funcs.fwd, iso.ambiguous_funcs);
+    }
     // GC mode
     let mut m = cfg.parse(&b.bytes).unwrap();
     walrus::passes::gc::run(&mut m);
